@@ -334,7 +334,12 @@ pub fn note_file_read(n: usize) {
     let mut g = lock_io();
     if let Some(st) = g.as_mut() {
         st.counters.input_bytes += n as u64;
-        INPUT_TOTAL.fetch_add(n as u64, std::sync::atomic::Ordering::SeqCst);
+        let before = INPUT_TOTAL.fetch_add(n as u64, std::sync::atomic::Ordering::SeqCst);
+        if let Some(k) = st.plan.stop_at_input_byte {
+            if before < k && before + n as u64 >= k {
+                crate::sched::inject_stop_now();
+            }
+        }
     }
 }
 
